@@ -101,6 +101,18 @@ chk("C05", "vexplore",
     "Trusted: the fakes' ground truth; WebAuthn/FIDO2 (CBOR) and Okta flows are not driven; more than two users / deeper histories are outside the bound.",
     "DESIGN.md 3 C05")
 
+chk("C07", "vexplore",
+    "explicit-state breadth-first search with canonical-state deduplication over login / directory / time / outage / synchronisation / tampering histories on the real login handler, LDAP authenticator and storage layer, against a plain-map reference model compared on every transition",
+    "Alphabet (28 operations, two users): login with the current / previous / wrong / empty / other user's password via form and basic-auth and with an upper-cased name; directory all servers up / all down / first down; password change; tick 1 h / 95 h / 97 h; primary store up / outage (fault-injecting SQL driver); synchronisation (real copyDBIntoSQLite + cleanup); cache-row tampering (copy alice's signed row to bob, bump the unsigned expiry column, flip a byte). The model keeps the directory and, per store, the signed subject, signed expiry and hashed password of each record; after every step the verdict and the presence of the record in the primary store are compared, after every completed synchronisation the cache must equal the primary's unexpired rows. Depth 4 quick / 5 thorough. htpasswd and external-command backends are run once each (no cache).",
+    "Trusted: the LDAP bind is stubbed at lib/authutil through the seam inserted by verifgen (the ldap.v2 wire protocol is not exercised; the repository's own LDAP tests need an expired fixture and are in the baseline's always-fail list).",
+    "DESIGN.md 3 C07")
+
+chk("C15", "vexplore+vfault",
+    "explicit-state BFS over storage histories on the real storage functions plus exhaustive fault enumeration: a fault (error, crash) injected at every SQL operation of every synchronisation reached within the fault depth, on the source and on the destination connection, through a wrapping database/sql driver; differential outage check over all routes",
+    "(a) 11 profile shapes built from real objects (U2F registrations with real attestation certificates, TOTP entries sealed with the server key, pending registration and TOTP secret, bootstrap OTP, WebAuthn credential and session data, 10 kB display name) are saved, read back from the primary, synchronised and read back from the cache during an outage. (b) BFS over {save/delete user, upsert/delete signed record, tick 97 h, sync} for two users, depth 4 (thorough 5): after each completed synchronisation the cache's users and signed rows equal the primary's users and unexpired signed rows (additions, changes and deletions). (c) for every synchronisation at history depth <= 3 (thorough 4) the SQL operations of a fault-free copyDBIntoSQLite are counted and a plain error and a crash (all connections lose uncommitted work, files reopened) are injected at every one of them on each connection: the cache must equal its previous or its complete new content as one unit. (d) every route x GET/POST with an admitted credential is run against a healthy, synchronised twin and against a twin whose primary is unreachable: authentication operations that succeed healthy must succeed from the cache, requests that change rows when healthy must not be acknowledged during the outage, and the primary file must not change.",
+    "Trusted: sqlite's atomic commit; only the sqlite flavour of the storage layer runs (no PostgreSQL here); outage = read timeout already elapsed + every statement fails (the device the repository's own tests use).",
+    "DESIGN.md 3 C15", category="fault_enumeration")
+
 NOT_YET = {
 }
 
